@@ -60,13 +60,17 @@ package core
 // Cross-reference streams: the /W widths and the /Index pairs come from the file.
 //@ func (*XRefParser) parseXRefStreamEntry results (entry, n, err)
 //@   property C02
-//@   requires len(w) == 3
+//@   requires len(w) == 3 && w[0] >= 0 && w[1] >= 0 && w[2] >= 0
 //@   ensures consumed: !err ==> n == w[0] + w[1] + w[2] && n <= len(data) && n >= 0
 
 //@ func (*XRefParser) parseXRefStream results (table, err)
 //@   property C02
 //@   callsite parseXRefStreamEntry(d, ws) requires ws[0] + ws[1] + ws[2] > 0
+//@   loop 0:
+//@     invariant 0 <= i && i <= len(indexArr) && len(index) == len(indexArr)
+//@   loop 1:
+//@     invariant 0 <= i && i <= 3 && len(w) == 3 && len(wArr) == 3
 //@   loop 2:
-//@     invariant 0 <= i && len(w) == 3 && 0 <= dataOffset && dataOffset <= len(data)
+//@     invariant 0 <= i && mod(i, 2) == 0 && mod(len(index), 2) == 0 && len(w) == 3 && w[0] >= 0 && w[1] >= 0 && w[2] >= 0 && w[0] + w[1] + w[2] > 0 && 0 <= dataOffset && dataOffset <= len(data)
 //@   loop 3:
-//@     invariant 0 <= j && len(w) == 3 && 0 <= dataOffset && dataOffset <= len(data) && 0 <= i && i + 1 < len(index)
+//@     invariant 0 <= j && len(w) == 3 && w[0] >= 0 && w[1] >= 0 && w[2] >= 0 && w[0] + w[1] + w[2] > 0 && 0 <= dataOffset && dataOffset <= len(data) && 0 <= i && i + 1 < len(index)
